@@ -365,6 +365,10 @@ def rules(chk, db):
     chk.rule('NR', 'no narrowing of a decoded count / length in any decoder', minimum=10)
     encrules.narrowing(chk, db, 'NR', {'ReadPayload', 'Read'})
     encrules.read_rules(chk, db, want=('GRD',))
+    # "the handler bound to the request's method selector": selectors are SipHash of the method name under the INTERFACE's hash, so
+    # equal method names of different interfaces get different selectors (compile-time witnesses shared with C18)
+    from . import c18
+    c18.witnesses(chk)
     witness.run(chk, 'c14_rpc.cpp', 'W', 'compile-time witnesses for interface declarations and bindings', minimum=6)
 
 
